@@ -192,6 +192,10 @@ def generate(run_seed):
     policy = rng.choice(POLICIES)
     case = {"format": 1, "engine": "threads", "property": PROPERTY, "run_seed": run_seed,
             "scenario": scen, "script": script, "policy": policy, "schedule": None}
+    if st.get("startfault").random() < 0.06:
+        # fault: the n-th attempt to start a thread fails ("can't start new thread"); the call it
+        # fails in may raise, nothing after it may
+        scen["start_fault"] = st.get("startfault").randint(1, 3)
     if st.get("swarm").random() < 0.04:
         case["extended"] = True
         xr = st.get("extended")
@@ -505,6 +509,8 @@ def run_script(case, mode, forced=None):
             else:
                 scheduler = S.Scheduler(streams.get("sched"), case["policy"], clock=clock,
                                         forced=forced)
+            scheduler.start_fault = case["scenario"].get("start_fault")
+            scheduler.fault_fired = False
         world = World(case, env, scheduler)
         world.setup_files()
         hist["cache_before"] = world.cache_snapshot()
@@ -602,7 +608,11 @@ def run_script(case, mode, forced=None):
                             raise
                         except Exception as exc:
                             out = ("exc", type(exc).__name__, str(exc)[:160])
-                        hist["calls"].append({"op": op, "outcome": out})
+                        rec = {"op": op, "outcome": out}
+                        if scheduler is not None and scheduler.fault_fired and not hist.get("fault_call_seen"):
+                            hist["fault_call_seen"] = True
+                            rec["faulted"] = True       # the injected fault fired during this call
+                        hist["calls"].append(rec)
                     if scheduler is not None:
                         scheduler.quiesce()
                     # at quiescence: loading must hold no live thread; one extra load per URL
@@ -613,12 +623,16 @@ def run_script(case, mode, forced=None):
                     except Exception:
                         pass
                     for n in sorted(world.urls):
-                        try:
-                            res = ("ret", summarize(world.term.load(world.urls[n])))
-                        except (S.SimDeadlock, S.SimStepCap, S.SimKilled):
-                            raise
-                        except Exception as exc:
-                            res = ("exc", type(exc).__name__, str(exc)[:160])
+                        for attempt in (0, 1):
+                            try:
+                                res = ("ret", summarize(world.term.load(world.urls[n])))
+                            except (S.SimDeadlock, S.SimStepCap, S.SimKilled):
+                                raise
+                            except Exception as exc:
+                                res = ("exc", type(exc).__name__, str(exc)[:160])
+                                if attempt == 0 and "start new thread" in str(exc):
+                                    continue    # the injected fault fired only now: ask once more
+                            break
                         hist["final_loads"][n] = res
                     # ... and one per URL a template handler was asked for during the script
                     hist["final_t_loads"] = {}
@@ -875,16 +889,26 @@ def judge(case, hist, ref, scheduled):
         name = call["op"][0]
         out = call["outcome"]
         if out[0] == "exc":
+            if call.get("faulted") and out[1] == "RuntimeError" and "start new thread" in out[2]:
+                continue        # the call in which the injected fault fired may fail with it
             if name in NO_RAISE_CALLS:
                 return dict(sig("load.no-raise", name, out[1]), step=i,
                             message="%s(%s) raised %s: %s" % (name, call["op"][1], out[1], out[2]))
+            if name == "include" and case["scenario"].get("start_fault"):
+                # after an injected thread-start fault an include may fail like any include of a
+                # resource that cannot be loaded; what it must not meet is the wreck of the fault
+                if out[1] == "RuntimeError":
+                    return dict(sig("load.no-raise", name, out[1]), step=i,
+                                message="include raised %s: %s" % (out[1], out[2]))
+                continue
             if name == "include" and ref is not None:
                 rout = ref["calls"][i]["outcome"]
                 if rout[0] != "exc" or rout[1] != out[1]:
                     return dict(sig("load.no-raise", name, out[1]), step=i,
                                 message="include raised %s, the sequential reference %s" %
                                 (out[1], rout[1] if rout[0] == "exc" else "returned"))
-        elif name == "include" and ref is not None and ref["calls"][i]["outcome"][0] == "exc":
+        elif name == "include" and ref is not None and ref["calls"][i]["outcome"][0] == "exc" \
+                and not case["scenario"].get("start_fault"):
             return dict(sig("load.equals-reference", name, "returned"), step=i,
                         message="include returned, the sequential reference raised %s" %
                         ref["calls"][i]["outcome"][1])
@@ -892,8 +916,9 @@ def judge(case, hist, ref, scheduled):
         if res[0] == "exc":
             return dict(sig("load.no-raise", "load", res[1]),
                         message="load(%s) at quiescence raised %s: %s" % (n, res[1], res[2]))
-    # 3. results equal the reference
-    if ref is not None and not ref.get("invalid"):
+    # 3. results equal the reference (not after an injected thread-start fault: a loader that
+    #    could not be started legitimately makes a load answer None, and that answer stays)
+    if ref is not None and not ref.get("invalid") and not case["scenario"].get("start_fault"):
         for i, call in enumerate(hist["calls"]):
             name = call["op"][0]
             out, rout = call["outcome"], ref["calls"][i]["outcome"]
